@@ -52,6 +52,11 @@ impl<'a, T> Iterator for Iter<'a, T> {
     type Item = &'a T;
 
     fn next(&mut self) -> Option<Self::Item> {
+        if self.index >= self.view.shape.elements() {
+            // Exhausted: stay exhausted, so that the iterator is actually fused
+            return None;
+        }
+
         self.impl_next_rec(self.view.dimensions() - 1)
     }
 
